@@ -14,13 +14,13 @@ def empty():
 
 
 def take(s, k):
-    k = max(0, min(k, len(s)))
-    return bytes(s[:k])
+    """The first k octets (all of s when k > len(s), empty when k < 0)."""
+    return bytes(s[:k]) if k >= 0 else b""
 
 
 def drop(s, k):
-    k = max(0, min(k, len(s)))
-    return bytes(s[k:])
+    """s without its first k octets (empty when k < 0 or k > len(s))."""
+    return bytes(s[k:]) if 0 <= k <= len(s) else b""
 
 
 def is_bytes(s):
